@@ -9,6 +9,10 @@ import (
 	"time"
 
 	"github.com/spikeekips/mitum/base"
+	"github.com/spikeekips/mitum/isaac"
+	isaacblock "github.com/spikeekips/mitum/isaac/block"
+	"github.com/spikeekips/mitum/util"
+	"github.com/spikeekips/mitum/util/fixedtree"
 	"pgregory.net/rapid"
 	"verif/internal/chain"
 	"verif/internal/ev"
@@ -18,8 +22,9 @@ import (
 // C19: database reads agree with the committed chain.
 //
 // A drawn history of block writes (production path: proposal processor -> block writer -> block-write database ->
-// Center.MergeBlockWriteDatabase), Center.MergeAllPermanent, Center.RemoveBlocks and close/reopen; after every step every
-// read of isaac.Database is compared with the list-of-committed-blocks model (common_test.go). A concurrent phase
+// Center.MergeBlockWriteDatabase), Center.MergeAllPermanent, Center.RemoveBlocks, close/reopen and abandoned block writes
+// (a block write database for last+1 that is written but never merged: crash / cancel before the commit); after every step
+// every read of isaac.Database is compared with the list-of-committed-blocks model (common_test.go). A concurrent phase
 // lets readers poll states while the harness writes blocks and merges.
 
 type c19Hist struct {
@@ -191,12 +196,187 @@ func c19Concurrent(t ev.TB, r *ev.Rec, e *dbEnv, hist *c19Hist, nblocks, nreader
 	}
 }
 
+// c19Abandoned is a block write database for height last+1 that was written but never handed to
+// Center.MergeBlockWriteDatabase: it is not part of the committed chain, whatever happens afterwards.
+type c19Abandoned struct {
+	H        base.Height
+	Manifest util.Hash // manifest hash of its block map (nil: the writer did not get as far as SetBlockMap)
+	Stage    string
+	End      string
+	Reloaded bool // the storage was opened again after the write
+}
+
+type c19AbandonPlan struct {
+	Keys       []int  // indices into the key pool
+	WithSuf    bool   // writes a suffrage state (and, at stage "proved", its proof)
+	WithPolicy bool   // writes a network policy state
+	MaxOps     uint64 // the policy's max operations
+	Stage      string // how far the writer got: "states" | "written" | "mapped" | "proved"
+	End        string // "crash" (nothing more is called) | "cancel" (BlockWriteDatabase.Cancel) | "close" (BlockWriteDatabase.Close)
+}
+
+// c19AbandonedWrite writes a well-formed block of height last+1 (states of pool keys, one operation, optionally a suffrage
+// state with its proof and a network policy state, a signed block map) into a new block write database of the center with
+// the calls isaacblock.Writer makes, in its order (SetStates, SetOperations, Write, SetBlockMap, SetSuffrageProof), stops
+// at p.Stage and never calls Center.MergeBlockWriteDatabase: the node stopped, or the block was cancelled, before the
+// commit. The operation of the abandoned block is added to e.AllOps, so the operation reads are asked for it too.
+func c19AbandonedWrite(e *dbEnv, p c19AbandonPlan) (*c19Abandoned, error) {
+	label := e.label("abandoned")
+	h := e.M.lastHeight() + 1
+	m := e.M
+
+	ab := &c19Abandoned{H: h, Stage: p.Stage, End: p.End}
+	op := dbOpRef{Op: gen.H(label + "/operation"), Fact: gen.H(label + "/fact"), InState: false, H: h}
+
+	previous := func(key string) util.Hash {
+		if st, found := m.state(key); found {
+			return st.Hash()
+		}
+
+		return nil
+	}
+
+	var sts []base.State
+
+	for _, k := range p.Keys {
+		sts = append(sts, base.NewBaseState(h, dbKey(k), base.NewDummyStateValue(label+"/value/"+dbKey(k)), previous(dbKey(k)), []util.Hash{op.Fact}))
+	}
+
+	var sufst base.State
+
+	if members := m.members(); p.WithSuf && len(members) > 0 {
+		sufst = base.NewBaseState(h, isaac.SuffrageStateKey, isaac.NewSuffrageNodesStateValue(m.maxSuffrageHeight()+1, members),
+			previous(isaac.SuffrageStateKey), []util.Hash{op.Fact})
+		sts = append(sts, sufst)
+	}
+
+	if p.WithPolicy {
+		pl := isaac.DefaultNetworkPolicy()
+		_ = pl.SetMaxOperationsInProposal(p.MaxOps)
+		sts = append(sts, base.NewBaseState(h, isaac.NetworkPolicyStateKey, isaac.NewNetworkPolicyStateValue(pl),
+			previous(isaac.NetworkPolicyStateKey), []util.Hash{op.Fact}))
+	}
+
+	tw, err := fixedtree.NewWriter(base.StateFixedtreeHint, uint64(len(sts)))
+	if err != nil {
+		return nil, err
+	}
+
+	for i := range sts {
+		if err := tw.Add(uint64(i), fixedtree.NewBaseNode(sts[i].Hash().String())); err != nil {
+			return nil, err
+		}
+	}
+
+	if err := tw.Write(func(uint64, fixedtree.Node) error { return nil }); err != nil {
+		return nil, err
+	}
+
+	tree, err := tw.Tree()
+	if err != nil {
+		return nil, err
+	}
+
+	suffrage := gen.H(label + "/suffrage")
+
+	switch pb := m.lastProof(); {
+	case sufst != nil:
+		suffrage = sufst.Hash()
+	case pb != nil:
+		suffrage = pb.Suf.Hash()
+	}
+
+	bm := isaacblock.NewBlockMap()
+	bm.SetManifest(isaac.NewManifest(h, m.last().Map.Manifest().Hash(), gen.H(label+"/proposal"), gen.H(label+"/operationstree"), tree.Root(),
+		suffrage, m.Blocks[0].Map.Manifest().ProposedAt()))
+
+	for _, t := range []base.BlockItemType{base.BlockItemProposal, base.BlockItemVoteproofs, base.BlockItemOperations,
+		base.BlockItemOperationsTree, base.BlockItemStates, base.BlockItemStatesTree} {
+		if err := bm.SetItem(isaacblock.NewBlockMapItem(t, gen.H(label+"/checksum/"+t.String()).String())); err != nil {
+			return nil, err
+		}
+	}
+
+	if err := bm.Sign(e.W.Local.Address(), e.W.Local.Privatekey(), e.W.NetworkID); err != nil {
+		return nil, err
+	}
+
+	if err := bm.IsValid(e.W.NetworkID); err != nil {
+		return nil, fmt.Errorf("block map of the abandoned block: %w", err)
+	}
+
+	bw, err := e.W.DB.NewBlockWriteDatabase(h)
+	if err != nil {
+		return nil, err
+	}
+
+	steps := []struct {
+		stage string
+		f     func() error
+	}{
+		{"states", func() error {
+			if err := bw.SetStates(sts); err != nil {
+				return err
+			}
+
+			return bw.SetOperations([]util.Hash{op.Op})
+		}},
+		{"written", bw.Write},
+		{"mapped", func() error {
+			ab.Manifest = bm.Manifest().Hash()
+
+			return bw.SetBlockMap(bm)
+		}},
+		{"proved", func() error {
+			if sufst == nil {
+				return nil
+			}
+
+			proof, err := tree.Proof(sufst.Hash().String())
+			if err != nil {
+				return err
+			}
+
+			return bw.SetSuffrageProof(isaacblock.NewSuffrageProof(bm, sufst, proof))
+		}},
+	}
+
+	for _, s := range steps {
+		if err := s.f(); err != nil {
+			_ = bw.Cancel()
+
+			return nil, fmt.Errorf("write the abandoned block write database (%s): %w", s.stage, err)
+		}
+
+		if s.stage == p.Stage {
+			break
+		}
+	}
+
+	switch p.End {
+	case "cancel":
+		if err := bw.Cancel(); err != nil {
+			return nil, fmt.Errorf("cancel the abandoned block write database: %w", err)
+		}
+	case "close":
+		if err := bw.Close(); err != nil {
+			return nil, fmt.Errorf("close the abandoned block write database: %w", err)
+		}
+	}
+
+	e.AllOps = append(e.AllOps, op)
+
+	return ab, nil
+}
+
 func TestC19(t *testing.T) {
 	r := ev.Start(t, "C19")
 	defer r.Finish()
 	r.Rule("histories of 8..N drawn steps over a production-path chain (3-5 genesis nodes; blocks with filler states over a 7-key pool, " +
 		"candidate/join/disjoin, policy changes, not-in-state operations, empty blocks, 350-key blocks; state caches 0/3/4096): " +
-		"next block, Center.MergeAllPermanent, Center.RemoveBlocks(last | any temp | out of range), close+reopen, concurrent phase " +
+		"next block, Center.MergeAllPermanent, Center.RemoveBlocks(last | any temp | out of range), close+reopen, abandoned block write " +
+		"(a block write database for last+1 written up to SetStates+SetOperations | Write | SetBlockMap | SetSuffrageProof in the order of " +
+		"isaacblock.Writer and never merged; then crash = reopen of the storage, or Cancel / Close and the process goes on), concurrent phase " +
 		"(2-4 readers polling State/StateBytes of 3 keys during 2-4 block+merge rounds). After every step every read of isaac.Database " +
 		"(BlockMap[Bytes] -1..last+1, LastBlockMap[Bytes], SuffrageProof[Bytes] by suffrage height -1..max+2, SuffrageProofByBlockHeight " +
 		"0..last+1, LastSuffrageProof[Bytes], State[Bytes] for every written/pool/absent key, ExistsInStateOperation/ExistsKnownOperation " +
@@ -207,6 +387,7 @@ func TestC19(t *testing.T) {
 	r.Assume("expected answers come from the block files on the local fs and the proposals built by the harness, never from the database",
 		"SuffrageProofByBlockHeight(h) for h above the last block is 'not found' (both stores document this)",
 		"RemoveBlocks is called for heights the harness believes are temps (and for out-of-range heights, which must be a no-op); after a removal the harness also removes the block files like launch.removePrevBlockFunc",
+		"a block write database that was never handed to Center.MergeBlockWriteDatabase is not a committed block: no read may answer from it, before or after the storage is opened again",
 		"goleveldb and the local-fs block writer are trusted")
 
 	maxSteps := r.N(22, 36)
@@ -227,9 +408,42 @@ func TestC19(t *testing.T) {
 		hist := &c19Hist{}
 		hist.add("genesis(n=%d,cache=%d)", nsuf, cache)
 
-		viol := dbViol(rt, r, hist.String)
+		baseViol := dbViol(rt, r, hist.String)
+
+		var abandoned []*c19Abandoned
+
+		// same oracle (reads vs the committed-blocks model); when the center serves the block map of an abandoned block write
+		// database at the moment of the mismatch, the mismatch is reported under that root cause
+		viol := func(sig, format string, a ...any) {
+			for _, ab := range abandoned {
+				if ab.Manifest == nil {
+					continue
+				}
+
+				if bm, found, err := e.W.DB.BlockMap(ab.H); err == nil && found && bm.Manifest().Hash().Equal(ab.Manifest) {
+					rsig := "uncommitted-block-visible"
+					if ab.Reloaded {
+						rsig = "uncommitted-block-visible-after-reload"
+					}
+
+					baseViol(rsig, "the center answers from the block write database of height %d (manifest %s; written up to %q, then %s) which was never merged by MergeBlockWriteDatabase (reloaded since: %v); first read that differs from the committed chain [%s]: %s",
+						ab.H, ab.Manifest, ab.Stage, ab.End, ab.Reloaded, sig, fmt.Sprintf(format, a...))
+
+					return
+				}
+			}
+
+			baseViol(sig, format, a...)
+		}
+
+		reloaded := func() {
+			for _, ab := range abandoned {
+				ab.Reloaded = true
+			}
+		}
 
 		var (
+			didAbandon, didAbandonReload                                    bool
 			nontrivial, didConc, didReopen, didRemove, sawBelow, sawBetween bool
 			reads                                                           int
 			reopened                                                        bool
@@ -266,7 +480,7 @@ func TestC19(t *testing.T) {
 		check()
 
 		for i := 0; i < nsteps; i++ {
-			acts := []string{"block", "block", "block", "block", "block", "block", "merge", "merge", "remove", "reopen"}
+			acts := []string{"block", "block", "block", "block", "block", "block", "merge", "merge", "remove", "reopen", "abandon"}
 			if !didConc {
 				acts = append(acts, "conc")
 			}
@@ -340,6 +554,44 @@ func TestC19(t *testing.T) {
 
 				hist.add("reopen")
 				reopened, didReopen = true, true
+
+				if len(abandoned) > 0 {
+					didAbandonReload = true
+				}
+
+				reloaded()
+			case "abandon":
+				var p c19AbandonPlan
+
+				p.Keys = rapid.SliceOfNDistinct(rapid.IntRange(0, dbKeyPool-1), 1, 3, rapid.ID[int]).Draw(rt, "abandonKeys")
+				p.WithSuf = rapid.Bool().Draw(rt, "abandonSuffrage")
+				p.WithPolicy = rapid.IntRange(0, 3).Draw(rt, "abandonPolicy") == 0
+				p.MaxOps = uint64(rapid.IntRange(50, 400).Draw(rt, "abandonMaxops"))
+				p.Stage = rapid.SampledFrom([]string{"states", "written", "mapped", "proved", "proved"}).Draw(rt, "abandonStage")
+				p.End = rapid.SampledFrom([]string{"crash", "crash", "cancel", "close"}).Draw(rt, "abandonEnd")
+
+				ab, err := c19AbandonedWrite(e, p)
+				if err != nil {
+					rt.Fatalf("harness: abandoned block write: %+v\nhistory: %s", err, hist)
+				}
+
+				abandoned = append(abandoned, ab)
+				didAbandon = true
+
+				hist.add("abandon(%d keys=%v suf=%v policy=%v stage=%s end=%s)", ab.H, p.Keys, p.WithSuf, p.WithPolicy, p.Stage, p.End)
+
+				if p.End == "crash" {
+					// the process died before the commit: the next thing that happens to the storage is a restart (reads of the
+					// running process with an unmerged block write database are covered by the cancel / close ends)
+					if err := e.Reopen(); err != nil {
+						r.Violation(rt, "reopen-error", "reopening the storage failed: %v\nhistory: %s", err, hist)
+					}
+
+					hist.add("reopen")
+					reopened, didReopen, didAbandonReload = true, true, true
+
+					reloaded()
+				}
 			case "conc":
 				nb := rapid.IntRange(2, 4).Draw(rt, "concBlocks")
 				nr := rapid.IntRange(2, 4).Draw(rt, "concReaders")
@@ -363,7 +615,7 @@ func TestC19(t *testing.T) {
 		for _, c := range []struct {
 			name string
 			on   bool
-		}{{"with-concurrent", didConc}, {"with-reopen", didReopen}, {"with-remove", didRemove}, {"query-below-temps", sawBelow}, {"query-between-changes", sawBetween}} {
+		}{{"with-concurrent", didConc}, {"with-reopen", didReopen}, {"with-remove", didRemove}, {"with-abandoned-write", didAbandon}, {"abandoned-write-then-reload", didAbandonReload}, {"query-below-temps", sawBelow}, {"query-between-changes", sawBetween}} {
 			if c.on {
 				classes = append(classes, c.name)
 			}
